@@ -20,13 +20,13 @@ def run(ck):
     ck.add_tlc(r, "all scenarios (input scalars in Z_5, 1-2 outputs per party), every choice of last blinder, every order, hops, all factor "
                   "choices: Balanced, Carry, ScalarCount, Finishes, LastRunsLast")
     pb = gen(ck, 3)
-    rep = vh(["psetblind", "replay", "--cases", pb, "--seed", ck.seed, "--threads", 8 if q else 16, "--stride3", 8 if q else 1], timeout=7000)
+    rep = vh(["psetblind", "replay", "--cases", pb, "--seed", ck.seed, "--threads", 8 if q else 16, "--stride3", 48 if q else 1], timeout=7000)
     ck.add_vh(rep, distinct_key="distinct_cases")
-    ck.cov["rule"] = ("one case per schedule = (1..3 parties from 6 ownership templates: confidential / explicit inputs over two assets, one "
+    ck.cov["rule"] = ("one case per schedule = (1..3 parties from 10 ownership templates: confidential / explicit inputs over two assets, explicit issuances of an asset, of tokens only or of both, one "
                       "or two outputs per party) x choice of the last blinder x order of the others x hop / no hop x explicit output; each "
                       "replayed with real keys and proofs: after every step the scalar count and the set of fully blinded outputs are "
                       "compared with the specification, the published scalar is recomputed modulo the group order from the reported "
                       "factors, and at the end extract_tx verifies, every output unblinds to the original with the reported factors, the "
-                      "explicit-value / asset proofs verify, no scalar is left; quick sub-samples 3-party schedules 1 in 8")
+                      "explicit-value / asset proofs verify, no scalar is left; quick sub-samples 3-party schedules 1 in 48")
     ck.assumptions += ["every party owns at least one output to blind (a party with confidential inputs and no output cannot be balanced by "
                        "this protocol; excluded by the quantifier)", "equal published scalars (probability 2^-256) would collapse on the wire"]
